@@ -339,7 +339,12 @@ func (ctx *crashCtx) tryDamage(tree *vos.Tree, cfg Config, d Damage) {
 			return
 		}
 	}
+	everSorted := make([]string, 0, len(r.Ever))
 	for k := range r.Ever {
+		everSorted = append(everSorted, k)
+	}
+	sort.Strings(everSorted) // the first bad key named in the report must not depend on map order
+	for _, k := range everSorted {
 		if e, bad := rd.errs[k]; bad {
 			_ = e
 			continue // an error is an accepted outcome
@@ -499,7 +504,7 @@ func (ctx *crashCtx) readTolerant(db *kv.DB, rec *recovery, rd *damageRead) {
 // scanTolerant: the sequential reader over every data and hint file of the damaged directory must not panic either.
 func (ctx *crashCtx) scanTolerant(t *vos.Tree, root string, rec *recovery) {
 	{
-		for n := range t.Names {
+		for _, n := range t.SortedNames() { // engine calls follow: never in map order
 			if !strings.HasPrefix(n, "db/") {
 				continue
 			}
